@@ -175,8 +175,48 @@ def write_layout(pair, crate, fn):
     return canon, ex, findings, wc
 
 
+def guard_semantic(cond, body_size_name="body_size"):
+    """The set of body sizes a guard condition lets through, found by evaluating the condition: a condition over `body_size` built from
+    comparisons with integer literals (in any spelling: `!=`, `>`, `!(a..=b).contains(&body_size)`, `body_size < a || body_size > b`, ..)
+    is piecewise constant with breakpoints at its literals, so it is evaluated at every literal, its neighbours, 0 and u32::MAX.
+    -> ('ne', K) | ('range', a, b) | ('gt', b) | None when it is not such a condition"""
+    from .minieval import Mini, Unsupported, Panic
+    c = H.strip(cond)
+    locals_ = {x[1] for x in H.walk(c) if H.tag(x) == "local"}
+    if locals_ != {body_size_name}:
+        return None
+    lits = {int(x[2]) for x in H.walk(c) if H.tag(x) == "lit" and x[1] == "int"}
+    if not lits or len(lits) > 8:
+        return None
+    U32 = (1 << 32) - 1
+    pts = sorted({0, 1, U32 - 1, U32} | {v + d for v in lits for d in (-1, 0, 1) if 0 <= v + d <= U32})
+    acc = []
+    for v in pts:
+        try:
+            r = Mini({}, "wow_world_messages").ev(c, [{body_size_name: v}])
+        except (Unsupported, Panic, KeyError, TypeError, ValueError, IndexError, AttributeError):
+            return None
+        if not isinstance(r, bool):
+            return None
+        if not r:
+            acc.append(v)
+    if not acc:
+        return None
+    lo, hi = acc[0], acc[-1]
+    if [v for v in pts if lo <= v <= hi] != acc or hi == U32:
+        return None  # not one interval, or no upper bound
+    if lo == hi:
+        return ("ne", lo)
+    if lo == 0:
+        return ("gt", hi)
+    return ("range", lo, hi)
+
+
 def parse_guard(cond, body_size_name="body_size"):
     """-> ('ne', K) | ('range', a, b) | ('gt', b) | ('other', text)"""
+    sem = guard_semantic(cond, body_size_name)
+    if sem is not None:
+        return sem
     c = H.strip(cond)
     if H.tag(c) == "un" and c[2] == "Not":
         m = H.strip(c[4])
